@@ -81,7 +81,7 @@ Proof. exact tswizzle_id. Qed.
 Theorem C03_rt_tswizzle_lookup : forall perm n t zs, Permutation perm (seq 0 n) -> wft n t -> length zs = n ->
   wft n (tswizzle perm t) /\
   tlookup (nth_perm perm (map VInt zs) VNone) (tswizzle perm t) = tlookup (map VInt zs) t.
-Proof. intros perm n t zs HP H Hzs. split; [apply tswizzle_wft; assumption|apply tswizzle_lookup; assumption]. Qed.
+Proof. intros perm n t zs HP H Hzs. split; [apply (tswizzle_wft perm n); assumption|apply (tswizzle_lookup perm n); assumption]. Qed.
 
 Theorem C03_rt_tswizzle_inverse : forall perm perm' n t, Permutation perm (seq 0 n) -> Permutation perm' (seq 0 n) ->
   (forall zs : list Z, length zs = n -> nth_perm perm' (nth_perm perm zs 0) 0 = zs) ->
